@@ -6,10 +6,11 @@
    discharged by computation on the generated record — an edit of lockfile.go that changes one of those facts breaks
    exactly the theorems that list it.  [run facts (init ovrs) its] executes ANY schedule [its] (calls, single backend
    operations of API threads and heartbeat writers with the logical age of the time stamp read, deaths, deadlines) for
-   ANY number of lock objects [ovrs] (their override flags). *)
+   ANY number of API threads [ovrs] (the override flag of the lock object each uses) and ANY assignment [objs] of lock
+   objects to them (several threads may share one object, i.e. one cancel store). *)
 From Coq Require Import List Bool Arith.
 Import ListNotations.
-From GU Require Import C01.Facts C01.Model C01.Proofs C01.Proofs2 C01.Witness C01.Gen.
+From GU Require Import C01.Facts C01.Model C01.Proofs C01.Proofs2 C01.Proofs3 C01.Witness C01.Gen.
 
 (* cond_acquire: TryLock creates the lock with the EXCLUSIVE mkdir, only "exists" means held, every other mkdir error is
    returned, the heartbeat is started (and nil returned) only after both tests, the override branch retries TryLock,
@@ -23,20 +24,20 @@ From GU Require Import C01.Facts C01.Model C01.Proofs C01.Proofs2 C01.Witness C0
    removal of somebody's live lock. *)
 Theorem lock_mkdir_exclusive :
   cond_acquire facts = true /\
-  forall ovrs its s os, run facts (init ovrs) its = Some (s, os) -> bad s = false -> live_holders s <= 1.
+  forall ovrs objs its s os, run facts (init ovrs objs) its = Some (s, os) -> bad s = false -> live_holders s <= 1.
 Proof. split; [reflexivity|]. exact (mkdir_exclusive_l facts eq_refl). Qed.
 Print Assumptions lock_mkdir_exclusive.
 
 (* Every engaged live contender's directory is the one on disk (same statement, on the state). *)
 Theorem lock_holder_owns_directory :
   cond_acquire facts = true /\
-  forall ovrs its s os c x g,
-  run facts (init ovrs) its = Some (s, os) -> bad s = false ->
+  forall ovrs objs its s os c x g,
+  run facts (init ovrs objs) its = Some (s, os) -> bad s = false ->
   nth_error (cs s) c = Some x -> alive x = true -> eng x = Some g ->
   exists d, fs s = Some d /\ gen d = g /\ owner d = c.
 Proof.
-  split; [reflexivity|]. intros ovrs its s os c x g H Hb.
-  destruct (Inv_run facts eq_refl ovrs its s os H) as (Hex & _). exact (Hex Hb c x g).
+  split; [reflexivity|]. intros ovrs objs its s os c x g H Hb.
+  destruct (Inv_run facts eq_refl ovrs objs its s os H) as (Hex & _). exact (Hex Hb c x g).
 Qed.
 Print Assumptions lock_holder_owns_directory.
 
@@ -44,11 +45,11 @@ Print Assumptions lock_holder_owns_directory.
    always engaged (covers the blocking acquires: they are polls of TryLock). *)
 Theorem lock_blocking_acquire_polls :
   cond_acquire facts = true /\
-  forall ovrs its s os c x,
-  run facts (init ovrs) its = Some (s, os) -> nth_error (cs s) c = Some x -> holds x = true -> eng x <> None.
+  forall ovrs objs its s os c x,
+  run facts (init ovrs objs) its = Some (s, os) -> nth_error (cs s) c = Some x -> holds x = true -> eng x <> None.
 Proof.
-  split; [reflexivity|]. intros ovrs its s os c x H.
-  destruct (Inv_run facts eq_refl ovrs its s os H) as (_ & Hhe & _). exact (Hhe c x).
+  split; [reflexivity|]. intros ovrs objs its s os c x H.
+  destruct (Inv_run facts eq_refl ovrs objs its s os H) as (_ & Hhe & _). exact (Hhe c x).
 Qed.
 Print Assumptions lock_blocking_acquire_polls.
 
@@ -69,12 +70,26 @@ Theorem lock_mutex_under_atomic_release :
   cond_acquire facts = true /\ cond_release facts = true /\
   forall (judge : state -> bool),
   (forall s, judge s = true -> live_owner (fs s) (cs s) = false) ->
-  forall ovrs its s, rrun facts judge (init ovrs) its = Some s ->
+  forall ovrs objs its s, rrun facts judge (init ovrs objs) its = Some s ->
   live_holders s <= 1 /\ bad s = false /\
   (forall c x g, nth_error (cs s) c = Some x -> alive x = true -> eng x = Some g ->
      exists d, fs s = Some d /\ gen d = g /\ owner d = c).
 Proof. split; [reflexivity|]. split; [reflexivity|]. exact (mutex_under_atomic_release_l facts eq_refl). Qed.
 Print Assumptions lock_mutex_under_atomic_release.
+
+(* "As long as the holder's heartbeat keeps running" is not at the mercy of other users of the lock: in every
+   reachable state without a destroyed lock, the last heartbeat writer of every live holder is still running and its
+   context is not cancelled — whatever other API threads do, including threads that SHARE the holder's lock object (one
+   cancel store): failed TryLocks, polling Locks, LockWithTimeout calls whose deadline fires (the timeout branch of
+   RunActionWithTimeoutAndCancelStore cancels its own two contexts, not the store).  What ends a writer: an Unlock on
+   its lock object, or the death of the process. *)
+Theorem holder_heartbeat_keeps_running :
+  cond_heartbeat facts = true /\
+  forall ovrs objs its s os, run facts (init ovrs objs) its = Some (s, os) -> bad s = false ->
+  forall c x, nth_error (cs s) c = Some x -> holds x = true -> alive x = true ->
+  exists l h, hbs x = l ++ [h] /\ pc h <> HbDone /\ hb_cancelled s c h = false.
+Proof. split; [reflexivity|]. exact (holder_heartbeat_l facts eq_refl eq_refl). Qed.
+Print Assumptions holder_heartbeat_keeps_running.
 
 (* The code's staleness verdict IS "the time stamp is older than 100 ms" (2 heartbeat periods of 50 ms, strict, in
    milliseconds on both sides), for the empty lock directory and for the heartbeat file alike — the canonical verdict
@@ -97,20 +112,20 @@ Print Assumptions lock_source_facts_as_modelled.
 Example judge_max_is_sound : forall s, judge_max s = true -> live_owner (fs s) (cs s) = false.
 Proof. intros s H. now apply negb_true_iff in H. Qed.
 Example restricted_relation_inhabited : exists s,
-  rrun facts judge_max (init ex_ovr) (map item_of ex_entries) = Some s /\
+  rrun facts judge_max (init ex_ovr []) (map item_of ex_entries) = Some s /\
   map (fun x => length (hbs x)) (cs s) = [1; 1; 1] /\ map alive (cs s) = [false; true; true] /\ live_holders s = 1.
 Proof. eexists. vm_compute. repeat split. Qed.
 Example refutations_break_atomicity :
-  rrun facts judge_max (init k1_ovr) (map item_of k1_entries) = None /\
-  rrun facts judge_max (init k1b_ovr) (map item_of k1b_entries) = None /\
-  rrun facts judge_max (init k2_ovr) (map item_of k2_entries) = None.
+  rrun facts judge_max (init k1_ovr []) (map item_of k1_entries) = None /\
+  rrun facts judge_max (init k1b_ovr []) (map item_of k1b_entries) = None /\
+  rrun facts judge_max (init k2_ovr []) (map item_of k2_entries) = None.
 Proof. vm_compute. repeat split. Qed.
 
 (* The full mutual-exclusion statement is FALSE of the faithful model (instantiated with the generated facts).
    K1: no time stamp older than 100 ms is ever presented, nobody dies, the staleness oracle is respected — a releaser's
    retry destroys its successor's lock and two live contenders hold. *)
 Theorem lock_mutex_refuted_K1 : exists ovrs its s,
-  final facts ovrs its = Some s /\ respects_oracle facts (init ovrs) its = true /\
+  final facts ovrs its = Some s /\ respects_oracle facts (init ovrs []) its = true /\
   forallb (fun it => match it with IStep _ _ a => negb (canon a) | _ => true end) its = true /\
   forallb (fun it => match it with IKill _ => false | _ => true end) its = true /\
   2 <= live_holders s /\ bad s = true.
@@ -120,14 +135,14 @@ Print Assumptions lock_mutex_refuted_K1.
 (* K2: a dead holder, two overriding contenders; the oracle is respected (only the dead holder's lock is judged stale);
    the slower releaser destroys the faster one's fresh lock and both hold. *)
 Theorem lock_mutex_refuted_K2 : exists ovrs its s,
-  final facts ovrs its = Some s /\ respects_oracle facts (init ovrs) its = true /\ 2 <= live_holders s /\ bad s = true.
+  final facts ovrs its = Some s /\ respects_oracle facts (init ovrs []) its = true /\ 2 <= live_holders s /\ bad s = true.
 Proof. exists k2_ovr, (map item_of k2_entries). eexists. vm_compute. repeat split; auto. Qed.
 Print Assumptions lock_mutex_refuted_K2.
 
 (* K1b: nobody dies; the holder has begun to release (heartbeat cancelled) when an overriding contender judges the lock
    stale and takes it over; the slow Unlock then destroys the taker's lock; a third contender acquires as well. *)
 Theorem lock_mutex_refuted_K1b : exists ovrs its s,
-  final facts ovrs its = Some s /\ respects_oracle facts (init ovrs) its = true /\
+  final facts ovrs its = Some s /\ respects_oracle facts (init ovrs []) its = true /\
   forallb (fun it => match it with IKill _ => false | _ => true end) its = true /\
   2 <= live_holders s /\ bad s = true.
 Proof. exists k1b_ovr, (map item_of k1b_entries). eexists. vm_compute. repeat split; auto. Qed.
